@@ -232,3 +232,63 @@ example : (genWiredEnable ⟨⟨false, true, .wired⟩, true, .on, false, []⟩)
     (genWiredEnable ⟨⟨false, true, .wired⟩, true, .booting, false, []⟩).1.enabled = false := by decide
 
 end Primaite.Power
+
+/-! ### the node's loops call the translated interface methods -/
+namespace Primaite.Power
+open Primaite.Gen.PowerProg
+
+/-- the method a concrete interface of the given kind runs on `enable()`: switch port → `WiredNetworkInterface.enable`, NIC /
+router interface → `IPWiredNetworkInterface.enable`, access point → `IPWirelessNetworkInterface.enable` (the inventory
+`C12_gen_nic_enable_defs` shows no class below them defines its own) -/
+def genEnableOf : NicKind → IfCtx → IOut
+  | .wired => genWiredEnable
+  | .ipWired => genIpWiredEnable
+  | .wireless => genIpWirelessEnable
+
+def genDisableOf : NicKind → IfCtx → IOut
+  | .wired => genWiredDisable
+  | .ipWired => genWiredDisable
+  | .wireless => genWirelessDisable
+
+/-- an interface as it sits in its node -/
+def ctxIn (n : Node) (hello : Bool) (c : Nic) : IfCtx := ⟨c, true, n.st, hello, []⟩
+
+/-- **`for i in self.network_interfaces.values(): i.enable()` of the translated power methods runs the translated interface
+bodies**: the model's `enableNics` (which `C12_gen_power_on_sem` / `_tick_power_sem` speak about) is, interface by interface,
+the translated `enable()` of that interface's class in the context "this node, in its present state" — for every node (the
+model keeps `linked = true` for an access point, which needs no link) -/
+theorem C12_enableNics_runs_translated_enable (n : Node) (hello : Bool)
+    (hw : ∀ c ∈ n.nics, c.kind = .wireless → c.linked = true) :
+    (enableNics n).nics = n.nics.map (fun c => (genEnableOf c.kind (ctxIn n hello c)).1) := by
+  simp only [enableNics]
+  apply List.map_congr_left
+  intro c hc
+  obtain ⟨h1, h2, _, h4⟩ := C12_gen_interface_enable_sem (ctxIn n hello c)
+  have hon : (ctxIn n hello c).on = n.isOn := by simp [IfCtx.on, ctxIn, Node.isOn]
+  have hnic : (ctxIn n hello c).nic = c := rfl
+  cases hk : c.kind
+  · simp only [genEnableOf]; rw [h2, hon, hnic]
+  · simp only [genEnableOf]; rw [h1, hon, hnic]
+  · simp only [genEnableOf]; rw [h4, hon, hnic]
+    exact (Nic.enableNoLink_eq _ _ (hw c hc hk)).symm
+
+theorem C12_disableNics_runs_translated_disable (n : Node) (hello : Bool) :
+    (disableNics n).nics = n.nics.map (fun c => (genDisableOf c.kind (ctxIn n hello c)).1) := by
+  simp only [disableNics]
+  apply List.map_congr_left
+  intro c _
+  obtain ⟨h1, h2⟩ := C12_gen_interface_disable_sem (ctxIn n hello c)
+  have hnic : (ctxIn n hello c).nic = c := rfl
+  cases hk : c.kind <;> simp only [genDisableOf] <;> first | rw [h1, hnic] | rw [h2, hnic]
+
+/-- **hence: while the node is not ON, no translated `enable()` of any class brings any of its interfaces up** (the loop of
+`power_on` included, were it to run) — every interface that is down stays down -/
+theorem C12_not_on_no_interface_comes_up (n : Node) (hello : Bool) (hne : n.st ≠ .on) (c : Nic) (hd : c.enabled = false) :
+    (genEnableOf c.kind (ctxIn n hello c)).1 = c := by
+  obtain ⟨h1, h2, _, h4⟩ := C12_interface_enable_refused_unless_on (ctxIn n hello c) hne hd
+  cases hk : c.kind
+  · simp only [genEnableOf]; exact h2
+  · simp only [genEnableOf]; exact h1
+  · simp only [genEnableOf]; exact h4
+
+end Primaite.Power
